@@ -631,6 +631,7 @@ class MiniEval:
         return out
 
     _globals_cache: Dict[int, Any] = {}
+    repo_modules: Dict[str, ast.Module] = {}  # module name -> tree, registered by the Model
 
     def _module_global(self, e: ast.Name):
         """the value expression of the single module-level assignment `name = <literal or call into a safe module>` of
@@ -646,6 +647,18 @@ class MiniEval:
                 vals.append(st.value)
             elif isinstance(st, ast.AnnAssign) and isinstance(st.target, ast.Name) and st.target.id == e.id and st.value is not None:
                 vals.append(st.value)
+        if not vals:
+            # `from <repository module> import NAME [as name]`: the constant's own module says what it is
+            for st in n.body:
+                if isinstance(st, ast.ImportFrom) and st.level == 0 and st.module in self.repo_modules:
+                    for a in st.names:
+                        if (a.asname or a.name) == e.id:
+                            other = self.repo_modules[st.module]
+                            for st2 in other.body:
+                                if isinstance(st2, ast.Assign) and any(isinstance(t, ast.Name) and t.id == a.name for t in st2.targets):
+                                    vals.append(st2.value)
+                                elif isinstance(st2, ast.AnnAssign) and isinstance(st2.target, ast.Name) and st2.target.id == a.name and st2.value is not None:
+                                    vals.append(st2.value)
         if len(vals) != 1:
             return None
         g = vals[0]
@@ -710,7 +723,7 @@ class MiniEval:
                 g = self._module_global(e)
                 if g is not None:
                     pure_call = isinstance(g, ast.Call) and isinstance(g.func, ast.Attribute) and isinstance(g.func.value, ast.Name) and g.func.value.id in SAFE_MODULES
-                    if pure_call or not self.permissive:
+                    if True:  # also in permissive mode: a module constant is what its module says it is
                         key = id(g)
                         cache = MiniEval._globals_cache
                         if key not in cache:
